@@ -6,6 +6,8 @@ import ZCV.Lemmas.NoInternalLower
 import ZCV.Lemmas.DischargeElab
 import ZCV.Lemmas.DischargeExamples
 import ZCV.Props.C10
+import ZCV.Lemmas.ImportOvFree
+import ZCV.Lemmas.ImportOvEx
 namespace ZCV.Props.C01
 open ZCV ZCV.Cfg
 
@@ -162,5 +164,182 @@ example : ∃ S, Elab.elabSchema Elab.Example.env 1 Elab.Example.doc = .ok S ∧
   exact ⟨S, hS, (C01_end_to_end_stock _ 1 _ S DischargeEx.dis_ex_env_stock hS Ex.conv Ex.env Ex.pkgs none _
     DischargeEx.dis_ex_comment_noImport DischargeEx.dis_ex_res).mpr
     ⟨[], DischargeEx.dis_ex_comment_tree, DischargeEx.dis_ex_conforms_nil S hch⟩⟩
+
+end ZCV.Props.C01
+
+/-! ## the general form: texts with `%import` lines, loaded with command-line overrides (C01 with C12 and C14) -/
+
+namespace ZCV.Props.C01
+open ZCV ZCV.Cfg ZCV.Conf
+
+/-- **Accepted ⇔ conforms, in general.**  For every text of any length (lines, `%define`s, `%include`s of any depth,
+    `%import`s) that meets no `%import` inside a section (`importsAtTop`) and whose imports keep the schema of the load
+    well-formed (`importsOK`), every list of specifiers whose section-selecting components are basic keys (`OvsOK`), and
+    datatype functions whose key types in use by the schema `S` the load starts with are idempotent: the loader returns a
+    configuration iff the specifiers are well-formed, the parser accepts the text, the edit the specifiers ask for is
+    possible (`editI`: against `S`, see `ZCV/Spec/EditImport.lean`), and the edited top-level items conform (`conformsI`:
+    every section judged by the schema in force at its position). -/
+theorem C01_load_accept_iff (conv : Conv) (env : Env) (pkgs : Str → Pkg) (S : Schema) (url : Option Str)
+    (lines : List Str) (specs : List Str)
+    (hidem : KeyIdemOn conv S)
+    (htop : importsAtTop env url lines)
+    (hok : ∀ tops, treeOfI env url lines = .ok tops → importsOK pkgs S tops = true)
+    (hovs : ∀ ovs, specs.mapM addOption = .ok ovs → OvsOK ovs) :
+    (∃ r, load conv env pkgs S url lines specs = .ok r) ↔
+      ∃ ovs, specs.mapM addOption = .ok ovs ∧ ∃ tops, treeOfI env url lines = .ok tops ∧
+        ∃ tops', editI conv S tops ovs = .ok tops' ∧ conformsI conv S pkgs tops' = true := by
+  have h := load_ov_eq_denoteI conv env pkgs S url lines specs true (fun _ => hidem) htop hok hovs
+  unfold conformsI
+  constructor
+  · rintro ⟨r, hr⟩
+    obtain ⟨ovs, tops, tops', h1, h2, h3, h4, _⟩ := load_ov_result conv env pkgs S url lines specs true (fun _ => hidem)
+      htop hok hovs r hr
+    exact ⟨ovs, h1, tops, h2, tops', h3, by rw [h4]; rfl⟩
+  · rintro ⟨ovs, h1, tops, h2, tops', h3, h4⟩
+    rw [h1, h2] at h
+    simp only [Cfg.toOption_ok, Option.bind_some] at h
+    rw [show editBodyI conv S true tops ovs = editI conv S tops ovs from rfl, h3] at h
+    simp only [Cfg.toOption_ok, Option.bind_some] at h
+    cases hl : load conv env pkgs S url lines specs with
+    | ok r => exact ⟨r, rfl⟩
+    | error e =>
+      rw [hl] at h
+      rw [← h] at h4
+      cases h4
+
+/-- the same with the supplied lines spelled with the normalised key (`editNormI`): no assumption on the key types -/
+theorem C01_load_accept_iff_norm (conv : Conv) (env : Env) (pkgs : Str → Pkg) (S : Schema) (url : Option Str)
+    (lines : List Str) (specs : List Str)
+    (htop : importsAtTop env url lines)
+    (hok : ∀ tops, treeOfI env url lines = .ok tops → importsOK pkgs S tops = true)
+    (hovs : ∀ ovs, specs.mapM addOption = .ok ovs → OvsOK ovs) :
+    (∃ r, load conv env pkgs S url lines specs = .ok r) ↔
+      ∃ ovs, specs.mapM addOption = .ok ovs ∧ ∃ tops, treeOfI env url lines = .ok tops ∧
+        ∃ tops', editNormI conv S tops ovs = .ok tops' ∧ conformsI conv S pkgs tops' = true := by
+  have h := load_ov_eq_denoteI conv env pkgs S url lines specs false (fun h => by cases h) htop hok hovs
+  unfold conformsI
+  constructor
+  · rintro ⟨r, hr⟩
+    obtain ⟨ovs, tops, tops', h1, h2, h3, h4, _⟩ := load_ov_result conv env pkgs S url lines specs false
+      (fun h => by cases h) htop hok hovs r hr
+    exact ⟨ovs, h1, tops, h2, tops', h3, by rw [h4]; rfl⟩
+  · rintro ⟨ovs, h1, tops, h2, tops', h3, h4⟩
+    rw [h1, h2] at h
+    simp only [Cfg.toOption_ok, Option.bind_some] at h
+    rw [show editBodyI conv S false tops ovs = editNormI conv S tops ovs from rfl, h3] at h
+    simp only [Cfg.toOption_ok, Option.bind_some] at h
+    cases hl : load conv env pkgs S url lines specs with
+    | ok r => exact ⟨r, rfl⟩
+    | error e =>
+      rw [hl] at h
+      rw [← h] at h4
+      cases h4
+
+/-- **Special case: no overrides** — the statement of `C12_text_accept_iff_conformsI`, recovered from the general form
+    (nothing is edited when there are no specifiers). -/
+theorem C01_load_accept_iff_no_overrides (conv : Conv) (env : Env) (pkgs : Str → Pkg) (S : Schema) (url : Option Str)
+    (lines : List Str) (htop : importsAtTop env url lines)
+    (hok : ∀ tops, treeOfI env url lines = .ok tops → importsOK pkgs S tops = true) :
+    (∃ r, load conv env pkgs S url lines [] = .ok r) ↔
+      ∃ tops, treeOfI env url lines = .ok tops ∧ conformsI conv S pkgs tops = true := by
+  rw [C01_load_accept_iff_norm conv env pkgs S url lines [] htop hok (by
+    intro ovs h
+    simp only [List.mapM_nil, pure, Except.pure, Except.ok.injEq] at h
+    subst h
+    intro o ho; cases ho)]
+  constructor
+  · rintro ⟨ovs, h1, tops, h2, tops', h3, h4⟩
+    simp only [List.mapM_nil, pure, Except.pure, Except.ok.injEq] at h1
+    subst h1
+    rw [show editNormI conv S tops [] = .ok tops from editBodyI_nil conv S false tops] at h3
+    cases h3
+    exact ⟨tops, h2, h4⟩
+  · rintro ⟨tops, h2, h4⟩
+    exact ⟨[], rfl, tops, h2, tops, editBodyI_nil conv S false tops, h4⟩
+
+/-- **Special case: no `%import` lines and no overrides** — the statement of `C01_text_accept_iff_conforms'`, recovered from
+    the general form (`hkeys` of that statement is not needed). -/
+theorem C01_text_accept_iff_conforms_from_general (conv : Conv) (env : Env) (pkgs : Str → Pkg) (s : Schema) (url : Option Str)
+    (lines : List Str) (hs : schemaOK s = true)
+    (hni : ∀ l ∈ lines, NoImportLine l) (hres : ∀ u ls, env.res u = some ls → ∀ l ∈ ls, NoImportLine l) :
+    (∃ r, load conv env pkgs s url lines [] = .ok r) ↔
+      ∃ items, treeOf env url lines = .ok items ∧ conforms conv s items = true := by
+  obtain ⟨hfree, htop⟩ := treeOfI_import_free env url lines hni hres
+  have hitems : ∀ tops, treeOfI env url lines = .ok tops →
+      ∃ items, treeOf env url lines = .ok items ∧ tops = items.map .item ∧ lowItems items = true := by
+    intro tops ht
+    have hl := treeOfI_low env url lines tops ht
+    rw [ht] at hfree
+    cases hT : treeOf env url lines with
+    | error e => rw [hT] at hfree; cases hfree
+    | ok items =>
+      rw [hT] at hfree
+      simp only [Cfg.toOption_ok, Option.map_some, Option.some.injEq] at hfree
+      subst hfree
+      rw [lowTops_items] at hl
+      exact ⟨items, rfl, rfl, hl⟩
+  have hok : ∀ tops, treeOfI env url lines = .ok tops → importsOK pkgs s tops = true := by
+    intro tops ht
+    obtain ⟨items, _, rfl, _⟩ := hitems tops ht
+    rw [importsOK_items]
+    exact hs
+  rw [C01_load_accept_iff_no_overrides conv env pkgs s url lines htop hok]
+  unfold conformsI conforms
+  constructor
+  · rintro ⟨tops, ht, hc⟩
+    obtain ⟨items, hT, rfl, hl⟩ := hitems tops ht
+    rw [docHandlersI_items.C12_denoteI_free conv pkgs s items hs hl] at hc
+    exact ⟨items, hT, hc⟩
+  · rintro ⟨items, hT, hc⟩
+    rw [hT] at hfree
+    simp only [Cfg.toOption_ok, Option.map_some] at hfree
+    have hTI := Cfg.toOption_eq_some.mp hfree
+    obtain ⟨items2, hT2, heq, hl⟩ := hitems _ hTI
+    rw [hT] at hT2
+    cases hT2
+    refine ⟨_, hTI, ?_⟩
+    rw [docHandlersI_items.C12_denoteI_free conv pkgs s items hs hl]
+    exact hc
+
+/-- **End to end**, from a schema DOCUMENT: for the schema object `S` of any document the schema loader accepts (`hkey` as
+    in `C01_end_to_end`), a text whose `%import`s are at top level and bring well-formed components (`compsOK`: what the
+    schema loader guarantees of a component it has parsed), specifiers whose section-selecting components are basic
+    keys, key types of `S` idempotent.  `schemaOK S` is discharged by C10. -/
+theorem C01_end_to_end_general (eenv : Elab.Env) (fuel : Nat) (doc : Elab.Node) (S : Schema)
+    (hkey : ∀ (kt s r : Str), s ≠ [] → eenv.conv.key kt s = .ok r → r ≠ [])
+    (hS : Elab.elabSchema eenv fuel doc = .ok S)
+    (conv : Conv) (env : Env) (pkgs : Str → Pkg) (url : Option Str) (lines : List Str) (specs : List Str)
+    (hidem : KeyIdemOn conv S)
+    (htop : importsAtTop env url lines)
+    (hcomp : ∀ tops, treeOfI env url lines = .ok tops → compsOK pkgs S tops = true)
+    (hovs : ∀ ovs, specs.mapM addOption = .ok ovs → OvsOK ovs) :
+    (∃ r, load conv env pkgs S url lines specs = .ok r) ↔
+      ∃ ovs, specs.mapM addOption = .ok ovs ∧ ∃ tops, treeOfI env url lines = .ok tops ∧
+        ∃ tops', editI conv S tops ovs = .ok tops' ∧ conformsI conv S pkgs tops' = true :=
+  C01_load_accept_iff conv env pkgs S url lines specs hidem htop
+    (fun tops ht => importsOK_of_compsOK pkgs tops S (ZCV.Props.C10.C10_elab_schemaOK eenv fuel doc S hkey hS) (hcomp tops ht))
+    hovs
+
+/-- **non-vacuity**: in the world of `ZCV/Lemmas/ImportOvEx.lean` the text with a `%import` line, a section of the imported
+    type and a section of a static type, loaded with an override into the latter and a top-level key override, satisfies
+    the hypotheses of `C01_load_accept_iff`, and the theorem ACCEPTS it … -/
+example : ∃ r, load ExOv.conv ExOv.env ExOv.pkgs ExOv.schema none (ExOv.lines '1') ExOv.specsGood = .ok r :=
+  (C01_load_accept_iff ExOv.conv ExOv.env ExOv.pkgs ExOv.schema none (ExOv.lines '1') ExOv.specsGood ExOv.idem ExOv.atTop1
+    ExOv.ok1 ExOv.ovsGood_ok).mpr
+    ⟨ExOv.ovsGood, ExOv.split_good, ExOv.tops '1', ExOv.tree1, ExOv.topsGood, ExOv.edit_good, by
+      unfold conformsI; rw [ExOv.denote_good]; rfl⟩
+
+/-- … and REJECTS the same text loaded with an override into the section of the imported type (the edit against the
+    schema the load starts with is impossible) -/
+example : ¬ ∃ r, load ExOv.conv ExOv.env ExOv.pkgs ExOv.schema none (ExOv.lines '1') ExOv.specsBad = .ok r := by
+  rw [C01_load_accept_iff ExOv.conv ExOv.env ExOv.pkgs ExOv.schema none (ExOv.lines '1') ExOv.specsBad ExOv.idem ExOv.atTop1
+    ExOv.ok1 ExOv.ovsBad_ok]
+  rintro ⟨ovs, h1, tops, h2, tops', h3, _⟩
+  rw [ExOv.split_bad] at h1
+  cases h1
+  rw [ExOv.tree1] at h2
+  cases h2
+  rw [ExOv.edit_bad] at h3
+  cases h3
 
 end ZCV.Props.C01
